@@ -440,6 +440,25 @@ def log(*a):
 
 # ------------------------------------------------------------------ batch runs
 
+def _read_results(path):
+    """result lines of a worker; a line that is not valid JSON (possible when the code under test corrupted
+    the worker's memory) becomes a crash record for that case instead of a tool failure"""
+    out = []
+    with open(path, errors="replace") as f:
+        for line in f:
+            line = line.strip()
+            if not line:
+                continue
+            try:
+                rec = json.loads(line)
+                if not isinstance(rec, dict) or "i" not in rec:
+                    raise ValueError("not a result record")
+            except ValueError:
+                rec = {"i": len(out), "crash": "corrupted-output", "stderr": line[:200]}
+            out.append(rec)
+    return out
+
+
 def _run_chunk(binname, chunk, inp, outp, extra, stall, timeout):
     write_ndjson(inp, chunk)
     if os.path.exists(outp):
@@ -452,7 +471,7 @@ def _run_chunk(binname, chunk, inp, outp, extra, stall, timeout):
         if guard > len(chunk) + 5:
             raise ToolError("batch runner made no progress: %s" % binname)
         r = run_bin(binname, [inp, outp, "--start", done, "--stall", stall] + list(extra), timeout=timeout)
-        lines = read_ndjson(outp)
+        lines = _read_results(outp)
         if len(lines) >= len(chunk):
             done = len(lines)
             break
@@ -465,7 +484,7 @@ def _run_chunk(binname, chunk, inp, outp, extra, stall, timeout):
         with open(outp, "a") as f:
             f.write(json.dumps({"i": len(lines), "crash": r.outcome, "stderr": r.err[-400:]}) + "\n")
         done = len(lines) + 1
-    res = read_ndjson(outp)
+    res = _read_results(outp)
     if len(res) != len(chunk) or any(x["i"] != k for k, x in enumerate(res)):
         raise ToolError("batch runner %s: result/case mismatch" % binname)
     return res
